@@ -1,5 +1,7 @@
 """Common plans / alphabets for the Engine-M based checks."""
 from .. import common
+import numpy as _np
+
 from ..explore_m import alphabet, run_m_check, replay_history, SEED_BOOKS, SEED_KW
 
 ALPH = {
@@ -24,6 +26,8 @@ ALPH = {
     # tick 0.25 / 2.5: grid points whose decimal expansion ends in 5 (100.75, 107.5) and off-grid prices around them
     "quarter": alphabet(prices=(100.2, 100.22, 100.7, 100.76, 100.8), vols=(1, 2), ttls=(None,), mttls=(None,), dead=(), cancels=2),
     "t2_5": alphabet(prices=(105.0, 106.2, 107.5, 107.6, 108.0), vols=(1, 2), ttls=(None,), mttls=(None,), dead=(), cancels=2),
+    # volumes that are numpy integers (what an agent drawing its volumes with numpy submits)
+    "npvol": alphabet(vols=(_np.int64(1), _np.int64(3)), mvols=(_np.int64(2),), ttls=(None,), mttls=(None,), dead=(), cancels=2),
     # negative prices (accepted by pams with a warning), on and off the grid
     "negative": alphabet(prices=(-3.0, -2.5, -2.0, -0.4, 0.0), vols=(1, 2), ttls=(None,), mttls=(None,), dead=(), cancels=2),
     "low": alphabet(prices=(0.4, 1, 2), vols=(1, 2), ttls=(None,), mttls=(None,), dead=(), cancels=2),
@@ -56,6 +60,7 @@ def plan(tier, d0=None, dseed=None):
             p.append(("empty", mode, d0 - 1, "rich"))
             p.append(("empty", mode, d0 - 1, "extreme"))
             p.append(("empty", mode, d0 - 1, "negative"))
+            p.append(("empty", mode, d0 - 1, "npvol"))
             p.append(("tick01", mode, d0 - 1, "dec01"))
             p.append(("tick1e5", mode, d0 - 1, "fine"))
             p.append(("quartertick", mode, d0 - 1, "quarter"))
@@ -70,6 +75,7 @@ def plan(tier, d0=None, dseed=None):
             p.append(("empty", mode, d0, "low"))
             p.append(("empty", mode, d0 - 1, "extreme"))
             p.append(("empty", mode, d0 - 1, "negative"))
+            p.append(("empty", mode, d0 - 1, "npvol"))
             p.append(("tick01", mode, d0 - 1, "dec01"))
             p.append(("tick1e5", mode, d0 - 1, "fine"))
             p.append(("quartertick", mode, d0 - 1, "quarter"))
